@@ -24,7 +24,10 @@ EXPLANATION = (
     "distribution computed from the priorities and kept in an attribute between calls must be refreshed (or its reuse test be affected) by every method that writes a priority. "
     "Bookkeeping and priority / importance-weight formulas are normal-form identities. Call-site protocol: in the four training loops the "
     "argument of update_priority derives from the update that consumed the batch of the most recent sample_batch on that buffer, with no "
-    "other sample_batch on the buffer in between (typestate over the CFG)."
+    "other sample_batch on the buffer in between (typestate over the CFG). Read alike at the call sites: a field of a record result (NamedTuple / namedtuple / dataclass "
+    "built by every return of the update) / the position of that field; a local holding the bound method buffer.sample_batch (also through functools.partial or a "
+    "conditional expression of those) / the method call; a batch sampled by the caller and handed to the updating routine together with the buffer / the protocol read "
+    "across that call (at every call of the routine). Stratified bounds: the two length-B views [:-1] and [1:] of one grid arange(B + 1) * scalar / arange(B) * scalar and (arange(B) + 1) * scalar."
 )
 TRUSTED = ["numpy cumsum/searchsorted: searchsorted(cumsum(p), u*sum(p)) selects i with probability p_i/sum(p) for u ~ U[0,1)", "rng.uniform(0, 1) draws from [0, 1)"]
 RULES = {
@@ -1111,6 +1114,31 @@ def r2_subtraj_slots(ck, repo, nf):
           "" if ok else f"on some path the returned slots {bad_sig[0][0]} differ from the slots written {bad_sig[0][1]}: a slot recorded after the advance is the next, unwritten one; an unrecorded slot keeps an uninitialised priority", loc(mi, sfn))
 
 
+def _shifted_views(nf, p: Poly, k: Poly, n: Poly, scalars: set) -> Poly:
+    """Read the two length-n views of a length-(n+1) grid: with s scalar, (arange(n + 1) * s)[:-1] == arange(n) * s and
+    (arange(n + 1) * s)[1:] == (arange(n) + 1) * s, element by element (the same integer times the same scalar). `k` is arange(n);
+    `scalars` are the atoms known to be scalars (the total priority mass, the batch size). Anything else is left as it stands."""
+    for a in sorted(p.atoms()):
+        m = nf.meta.get(a, {})
+        if m.get("fn") != "subscript" or len(m.get("args", [])) != 1:
+            continue
+        base = m["args"][0]
+        cut = a[len(base.canon()):] if a.startswith(base.canon()) else ""
+        if cut not in ("[:-1]", "[1:]"):
+            continue
+        grids = [g for g in base.atoms() if nf.meta.get(g, {}).get("fn", "").split(".")[-1] == "arange"]
+        if len(grids) != 1:
+            continue
+        mg = nf.meta[grids[0]]
+        if len(mg.get("args", [])) != 1 or mg.get("kws") or mg["args"][0] != n + Poly.const(1):
+            continue
+        split = base.degree_split(grids[0])
+        if set(split) != {1} or not split[1].atoms() <= scalars:
+            continue
+        p = p.subst_atom(a, (k if cut == "[:-1]" else k + Poly.const(1)) * split[1])
+    return p
+
+
 def r3_sampler(ck, repo, nf, field, cq, meth, fieldtxt, kind):
     """searchsorted(cumsum(P), U) with P = priority[:len] (* mask[:len]) and U uniform on [0, total) (stratified: one draw per segment).
     The roles current_len / batch_size / rng / mask are the positions of the recorded signature."""
@@ -1245,6 +1273,7 @@ def r3_sampler(ck, repo, nf, field, cq, meth, fieldtxt, kind):
                     f"the uniform draws do not cover [0, total priority mass) ({U.canon()[:80]}): the tail of the distribution is never (or always) drawn", loc(mi, f))
         else:
             k = sp(f"np.arange({B})")
+            low, high = (_shifted_views(nf, x_, k, BP, total.atoms() | BP.atoms()) for x_ in (low, high))
             if not ((size is not None and size == BP) or (size is None and "arange" in _tok(low) and "arange" in _tok(high))) or (shift.terms and "arange" in _tok(low) | _tok(high)):
                 raise unrecU
             seg = total * BP.inv()
@@ -1736,6 +1765,182 @@ def _result_path(cfg, name: str, at: int, depth: int = 0):
     return None
 
 
+def _record_field_index(repo, tmi, cfg, e, at):
+    """`v.f` where the local v holds the whole result of a call whose callee builds one record class (NamedTuple / namedtuple /
+    dataclass) in every return statement: (v, index of f in the record's field order, the field names) - a field read is the
+    positional projection of the record - else None."""
+    if not (isinstance(e, ast.Attribute) and isinstance(e.value, ast.Name)):
+        return None
+    rp = _result_path(cfg, e.value.id, at)
+    if rp is None or tuple(rp[1]) or not isinstance(rp[0].func, (ast.Name, ast.Attribute)):
+        return None
+    call = rp[0]
+    if isinstance(call.func, ast.Name) and cfg.defs_of(rp[2], call.func.id):
+        return None
+    q = repo.resolve_expr(tmi, call.func)
+    try:
+        callee = repo.func(q) if q else None
+    except AnalysisError:
+        callee = None
+    if callee is None:
+        return None
+    own = [n for n in ast.walk(callee) if isinstance(n, ast.Return)]
+    inner = {id(n) for g in ast.walk(callee) if g is not callee and isinstance(g, (ast.FunctionDef, ast.AsyncFunctionDef, ast.Lambda)) for n in ast.walk(g)}
+    rets = [n for n in own if id(n) not in inner]
+    if not rets:
+        return None
+    classes = set()
+    for rt in rets:
+        v = rt.value
+        if isinstance(v, ast.Name):
+            asg = [a for a in ast.walk(callee) if isinstance(a, ast.Assign) and any(isinstance(t, ast.Name) and t.id == v.id for t in _targets(a))]
+            v = asg[0].value if len(asg) == 1 and len(asg[0].targets) == 1 and isinstance(asg[0].targets[0], ast.Name) else None
+        if not (isinstance(v, ast.Call) and isinstance(v.func, (ast.Name, ast.Attribute))):
+            return None
+        classes.add(repo.resolve_expr(callee._module, v.func))
+    if len(classes) != 1 or None in classes:
+        return None
+    try:
+        node = repo.lookup(next(iter(classes)))[1]
+    except AnalysisError:
+        return None
+    fields = NF._record_fields(node)
+    if not fields or len(set(fields)) != len(fields) or e.attr not in fields:
+        return None
+    return e.value, fields.index(e.attr), fields
+
+
+def _bound_method_receivers(repo, mi, e, meth):
+    """Receivers (dotted) whose bound method `meth` the expression evaluates to: `b.meth`, `functools.partial(b.meth, ...)` (the same
+    callee with some arguments fixed), a conditional expression of those; None for any other expression."""
+    if isinstance(e, ast.Attribute) and e.attr == meth:
+        d = dotted(e.value)
+        return {d} if d else None
+    if isinstance(e, ast.IfExp):
+        a, b = _bound_method_receivers(repo, mi, e.body, meth), _bound_method_receivers(repo, mi, e.orelse, meth)
+        return a | b if a and b else None
+    if isinstance(e, ast.Call) and e.args and not isinstance(e.args[0], ast.Starred) and isinstance(e.func, (ast.Name, ast.Attribute)) and repo.resolve_expr(mi, e.func) == "functools.partial":
+        return _bound_method_receivers(repo, mi, e.args[0], meth)
+    return None
+
+
+def _method_call_receivers(repo, mi, cfg, node, meth, site):
+    """Receivers of every call of method `meth` evaluated by a statement: `b.meth(..)`, or a call of a local that holds the bound
+    method (see _bound_method_receivers) on every definition reaching the call."""
+    out = []
+    for x in ast.walk(node.ast):
+        if not isinstance(x, ast.Call):
+            continue
+        if isinstance(x.func, ast.Attribute) and x.func.attr == meth:
+            out.append(dotted(x.func.value))
+        elif isinstance(x.func, ast.Name):
+            ds = cfg.defs_of(node.id, x.func.id)
+            vals = [_bound_method_receivers(repo, mi, d.value, meth) if d.kind == "assign" and d.value is not None and not d.path else None for d in ds]
+            if ds and all(v is not None for v in vals):
+                for v in vals:
+                    out.extend(sorted(v))
+            elif any(d.value is not None and any(isinstance(y, ast.Attribute) and y.attr == meth for y in ast.walk(d.value)) for d in ds):
+                raise AnalysisError(f"{site}: the callable `{x.func.id}` may hold `{meth}` of a buffer in a form that is not read (unrecognised form)")
+    return out
+
+
+class _ArgAt:
+    """An argument expression read like a statement evaluated at a CFG node."""
+
+    def __init__(self, e, at):
+        self.ast, self.id = e, at
+
+
+def _sample_stmts(repo, mi, cfg, buf, site):
+    return [m for m in cfg.nodes if m.ast is not None and m.kind == "stmt" and buf in _method_call_receivers(repo, mi, cfg, m, "sample_batch", site)]
+
+
+def _feeders(cfg, start, sample_ids):
+    """Def-use closure of the names read at `start` [(node, name)]: (sampling statements reached, those reached in the first step,
+    parameters of the function reached)."""
+    rd = cfg.reaching()
+    direct, feeding, params = set(), set(), set()
+    todo, seen_d, first = list(start), set(), True
+    while todo:
+        nxt = []
+        for at_, nm in todo:
+            for dn, _nm in rd[at_].get(nm, frozenset()):
+                if (dn, _nm) in seen_d:
+                    continue
+                seen_d.add((dn, _nm))
+                if dn in sample_ids:
+                    feeding.add(dn)
+                    if first:
+                        direct.add(dn)
+                    continue
+                nd_ = cfg.nodes[dn]
+                if nd_.kind == "entry":
+                    params.add(_nm)
+                elif nd_.ast is not None and nd_.kind in ("stmt", "for", "with"):
+                    src_ = nd_.ast.iter if nd_.kind == "for" else nd_.ast
+                    nxt += [(dn, x.id) for x in ast.walk(src_) if isinstance(x, ast.Name) and isinstance(x.ctx, ast.Load)]
+        todo, first = nxt, False
+    return feeding, direct, params
+
+
+def _resample_path(cfg, samples, s0, end):
+    """A path sampling statement s0 -> another sampling statement -> end that does not pass s0 again, else None."""
+    p = None
+    for m in samples:
+        if m.id == s0.id:
+            continue
+        p1 = cfg.paths_avoiding(s0.id, m.id, {end})
+        p2 = cfg.paths_avoiding(m.id, end, {s0.id}) if p1 is not None else None
+        if p1 is not None and p2 is not None:
+            p = p1 + p2[1:]
+    return p
+
+
+def _r6_sampled_by_caller(ck, repo, res, tq, fn, cfg, buf, n, c, upd_call, upd_node, fed_params):
+    """The routine that updates the priorities receives buffer and batch from its caller: the protocol is read across the call - at
+    every call the batch argument is the result of the most recent sample_batch on the buffer argument."""
+    tmi = fn._module
+    ps = param_names(fn)
+    ck.need(buf in ps and fed_params, f"{tq}: no sample_batch on `{buf}`")
+    ck.need(all(d.kind == "param" for d in cfg.defs_of(n.id, buf)), f"{tq}: `{buf}` is rebound before update_priority (unrecognised form)")
+    calls = []
+    for gq, g, gmi in repo.all_functions():
+        if g is fn:
+            continue
+        for x in ast.walk(g):
+            if isinstance(x, ast.Call) and isinstance(x.func, (ast.Name, ast.Attribute)) and repo.resolve_expr(gmi, x.func) == tq:
+                calls.append((gq, g, gmi, x))
+    ck.need(calls, f"{tq}: no sample_batch on `{buf}` and no call of the routine found (unrecognised form)")
+    dom_in = cfg.dominates(upd_node, n.id)
+    for gq, g, gmi, x in calls:
+        site = f"{tq} <- {gq}"
+        gcfg = res.cfg_of(g)
+        at = [m for m in gcfg.nodes if m.ast is not None and m.kind == "stmt" and any(y is x for y in ast.walk(m.ast))]
+        ck.need(len(at) == 1, f"{site}: the call is not a statement of the caller (unrecognised form)")
+        cn = at[0]
+        b = _bind(fn, x, site, skip_self=False)
+        gbuf = dotted(b[buf]) if b.get(buf) is not None else None
+        ck.need(gbuf is not None, f"{site}: buffer argument not recognised (unrecognised form)")
+        samples = _sample_stmts(repo, gmi, gcfg, gbuf, site)
+        ck.need(samples, f"{site}: no sample_batch on `{gbuf}` in the caller (unrecognised form)")
+        start = [(cn.id, y.id) for p_ in sorted(fed_params) if p_ != buf and b.get(p_) is not None for y in ast.walk(b[p_]) if isinstance(y, ast.Name) and isinstance(y.ctx, ast.Load)]
+        feeding, direct, _ = _feeders(gcfg, start, {m.id for m in samples})
+        pick = feeding if len(feeding) == 1 else direct
+        # the sampling call written as the argument itself: sampled while the call is evaluated, nothing can come in between
+        inline = any(gbuf in _method_call_receivers(repo, gmi, gcfg, _ArgAt(b[p_], cn.id), "sample_batch", site) for p_ in fed_params if p_ != buf and b.get(p_) is not None)
+        if inline and not pick:
+            pick = {cn.id}
+        ck.need(len(pick) == 1, f"{site}: the batch handed to the routine cannot be attributed to one sample_batch on `{gbuf}` (unrecognised form)")
+        s0 = gcfg.nodes[next(iter(pick))]
+        ck.ob("R6-call-protocol", site, "batch-feeds-update", True, f"batch of `{short(s0.ast, 60)}` handed to `{short(x, 40)}`, consumed by `{short(upd_call, 50)}`", "", loc(gmi, x))
+        p = _resample_path(gcfg, samples, s0, cn.id) if s0.id != cn.id else None
+        ck.ob("R6-call-protocol", site, "no-resample-in-between", p is None, f"sample_batch -> call -> update -> update_priority on `{gbuf}`",
+              "" if p is None else "another sample_batch on the same buffer lies between the batch whose errors are used and update_priority: the priorities are written to the wrong transitions", loc(gmi, x),
+              gcfg.describe_path(p) if p else None)
+        dom = gcfg.dominates(s0.id, cn.id) and dom_in
+        ck.ob("R6-call-protocol", site, "sample-dominates-update", dom, "every path to update_priority passes the sampling and the update", "" if dom else "update_priority can be reached without a fresh sample / update", loc(gmi, x))
+
+
 def r6_site(ck, repo, res, tq, prio_fn, err_path):
     fn = repo.func(tq)
     tmi = fn._module
@@ -1755,7 +1960,7 @@ def r6_site(ck, repo, res, tq, prio_fn, err_path):
     ok = r == RB + prio_fn
     if not ok:
         # evidence: another known priority function, or the raw result of a call (no priority function at all)
-        raw = isinstance(pe, ast.Name) and _result_path(cfg, pe.id, pat) is not None
+        raw = (isinstance(pe, ast.Name) and _result_path(cfg, pe.id, pat) is not None) or _record_field_index(repo, tmi, cfg, pe, pat) is not None
         if not (r in known or raw):
             raise AnalysisError(f"{tq}: priorities `{short(pe, 70)}` (unrecognised form)")
     ck.ob("R6-call-protocol", tq, "priority-function", ok, f"update_priority({short(pe, 70)})", "" if ok else f"priorities must be computed by {prio_fn}", loc(tmi, c))
@@ -1766,9 +1971,28 @@ def r6_site(ck, repo, res, tq, prio_fn, err_path):
     ck.need(err is not None, f"{tq}: TD-error argument not found")
     e0, eat = _origin(cfg, err, pat)
     sub = ()
-    while isinstance(e0, ast.Subscript) and isinstance(e0.slice, ast.Constant) and isinstance(e0.slice.value, int) and e0.slice.value >= 0:
-        sub = (e0.slice.value,) + sub
-        e0, eat = _origin(cfg, e0.value, eat)
+
+    def _carrier(b_, at_):
+        # copies of the carrier variable are followed, down to (not into) the variable that holds the call's result
+        o_, oat_ = _origin(cfg, b_, at_)
+        while isinstance(b_, ast.Name) and not isinstance(o_, (ast.Name, ast.Subscript, ast.Attribute)):
+            ds_ = cfg.defs_of(at_, b_.id)
+            if len(ds_) == 1 and ds_[0].kind == "assign" and isinstance(ds_[0].value, ast.Name):
+                b_, at_ = ds_[0].value, ds_[0].node
+                continue
+            return b_, at_
+        return o_, oat_
+    while True:
+        if isinstance(e0, ast.Subscript) and isinstance(e0.slice, ast.Constant) and isinstance(e0.slice.value, int) and e0.slice.value >= 0:
+            sub = (e0.slice.value,) + sub
+            e0, eat = _carrier(e0.value, eat)
+            continue
+        fld = _record_field_index(repo, tmi, cfg, e0, eat)      # `result.field` of a record-returning update: the field's position
+        if fld is not None:
+            sub = (fld[1],) + sub
+            e0, eat = _carrier(fld[0], eat)
+            continue
+        break
     ck.need(isinstance(e0, ast.Name), f"{tq}: TD-error argument is not a variable")
     rp = _result_path(cfg, e0.id, eat)
     ck.need(rp is not None, f"{tq}: TD-error argument `{e0.id}` is not a position of a call's result (unrecognised form)")
@@ -1787,44 +2011,18 @@ def r6_site(ck, repo, res, tq, prio_fn, err_path):
     if not okd:
         return
     # the batch consumed by that update comes from the most recent sample_batch on the same buffer (def-use closure of the update's arguments)
-    samples = [m for m in cfg.nodes if m.ast is not None and m.kind == "stmt" and any(isinstance(x, ast.Call) and isinstance(x.func, ast.Attribute) and x.func.attr == "sample_batch" and dotted(x.func.value) == buf for x in ast.walk(m.ast))]
-    ck.need(samples, f"{tq}: no sample_batch on `{buf}`")
-    rd = cfg.reaching()
-    sample_ids = {m.id for m in samples}
-    direct = set()
-    todo = [(upd_node, x.id) for x in ast.walk(upd_call) if isinstance(x, ast.Name)]
-    seen_d, feeding = set(), set()
-    first = True
-    while todo:
-        nxt = []
-        for at_, nm in todo:
-            for dn, _nm in rd[at_].get(nm, frozenset()):
-                if dn in seen_d:
-                    continue
-                seen_d.add(dn)
-                if dn in sample_ids:
-                    feeding.add(dn)
-                    if first:
-                        direct.add(dn)
-                    continue
-                nd_ = cfg.nodes[dn]
-                if nd_.ast is not None and nd_.kind in ("stmt", "for", "with"):
-                    src_ = nd_.ast.iter if nd_.kind == "for" else nd_.ast
-                    nxt += [(dn, x.id) for x in ast.walk(src_) if isinstance(x, ast.Name) and isinstance(x.ctx, ast.Load)]
-        todo, first = nxt, False
+    samples = _sample_stmts(repo, tmi, cfg, buf, tq)
+    start = [(upd_node, x.id) for x in ast.walk(upd_call) if isinstance(x, ast.Name)]
+    feeding, direct, fed_params = _feeders(cfg, start, {m.id for m in samples})
+    if not samples:
+        _r6_sampled_by_caller(ck, repo, res, tq, fn, cfg, buf, n, c, upd_call, upd_node, fed_params)
+        return
     pick = feeding if len(feeding) == 1 else direct
     ck.need(len(pick) == 1, f"{tq}: the batch consumed by `{short(upd_call, 50)}` cannot be attributed to one sample_batch on `{buf}` (unrecognised form)")
     s0 = cfg.nodes[next(iter(pick))]
     ck.ob("R6-call-protocol", tq, "batch-feeds-update", True, f"batch of `{short(s0.ast, 60)}` consumed by `{short(upd_call, 50)}`", "", loc(tmi, upd_call))
     # no sample_batch on the buffer between the feeding sample and update_priority
-    p = None
-    for m in samples:
-        if m.id == s0.id:
-            continue
-        p1 = cfg.paths_avoiding(s0.id, m.id, {n.id})
-        p2 = cfg.paths_avoiding(m.id, n.id, {s0.id}) if p1 is not None else None
-        if p1 is not None and p2 is not None:
-            p = p1 + p2[1:]
+    p = _resample_path(cfg, samples, s0, n.id)
     ck.ob("R6-call-protocol", tq, "no-resample-in-between", p is None, f"sample_batch -> update -> update_priority on `{buf}`",
           "" if p is None else "another sample_batch on the same buffer lies between the batch whose errors are used and update_priority: the priorities are written to the wrong transitions", loc(tmi, c),
           cfg.describe_path(p) if p else None)
@@ -1877,6 +2075,22 @@ def run(ck, repo: Repo, tier: str):
 
 
 _F = "rl_blox/blox/replay_buffer.py"
+_STRAT_DRAW = "        random_points = rng.uniform(\n            low=np.arange(batch_size) * segment,\n            high=(np.arange(batch_size) + 1) * segment,\n            size=batch_size\n        )\n"
+# td7: the critic update returns a record and the training step reads it by field
+_TD7_RECORD = [
+    ("    return q_loss_value, max_abs_td_error, q_target\n\n\ndef deterministic_policy_gradient_loss_sale(", "    return _CriticOut(q_loss_value, max_abs_td_error, q_target)\n\n\n_CriticOut = namedtuple(\"_CriticOut\", [\"loss\", \"abs_error\", \"target\"])\n\n\ndef deterministic_policy_gradient_loss_sale("),
+    ("    q_loss_value, max_abs_td_error, q_target = td7_update_critic(", "    out = td7_update_critic("),
+    ("    metrics[\"q loss\"] = q_loss_value\n", "    q_loss_value, q_target = out.loss, out.target\n    metrics[\"q loss\"] = q_loss_value\n"),
+]
+# per: the sampler is a bound method with the fixed arguments applied
+_PER_BOUND = ("                transition_batch, is_ratio = replay_buffer.sample_batch(batch_size, rng, beta[step])", "                draw = partial(replay_buffer.sample_batch, batch_size, rng)\n                transition_batch, is_ratio = draw(beta[step])")
+# td7: the caller samples and hands the batch to the training step
+_TD7_CALLER = [
+    ("                metrics, epochs = _train_step(\n", "                minibatch = replay_buffer.sample_batch(batch_size, rng)\n                metrics, epochs = _train_step(\n"),
+    ("                    replay_buffer,\n                    epoch,\n", "                    replay_buffer,\n                    minibatch,\n                    epoch,\n"),
+    ("    replay_buffer,\n    epoch,\n    sampling_key,\n    rng,\n    gamma,\n", "    replay_buffer,\n    minibatch,\n    epoch,\n    sampling_key,\n    rng,\n    gamma,\n"),
+    ("    ) = replay_buffer.sample_batch(batch_size, rng)\n\n    embedding_loss_value", "    ) = minibatch\n\n    embedding_loss_value"),
+]
 MUTANTS = [
     {"id": "c08-max-early-return-wrong-side", "file": _F, "rule": "R4", "find": "        self.max_priority = max(np.max(priority), self.max_priority)", "replace": "        batch_max = np.max(priority)\n        if self.max_priority < batch_max:\n            return\n        self.max_priority = batch_max"},
     {"id": "c08-subtraj-record-after-advance", "file": _F, "rule": "R2", "find": "            inserted_at += [self.insert_idx]\n            self.insert_idx = (self.insert_idx + 1) % self.buffer_size\n", "replace": "            self.insert_idx = (self.insert_idx + 1) % self.buffer_size\n            inserted_at += [self.insert_idx]\n"},
@@ -1943,6 +2157,13 @@ MUTANTS = [
         ("        self.sampled_indices = np.empty(0, dtype=int)\n", "        self.sampled_indices = np.empty(0, dtype=int)\n        self._writes = 0\n        self._cdf = None\n        self._cdf_writes = -1\n"),
         ("        self.priority[insert_idx] = self.max_priority\n", "        self.priority[insert_idx] = self.max_priority\n        self._writes += 1\n"),
         ("        priority = self.priority[:current_len]\n        if mask is not None:\n            priority = priority * mask[:current_len]\n        probabilities = np.cumsum(priority)\n        random_uniforms", "        if self._cdf_writes != self._writes or len(self._cdf) != current_len:\n            priority = self.priority[:current_len]\n            if mask is not None:\n                priority = priority * mask[:current_len]\n            self._cdf = np.cumsum(priority)\n            self._cdf_writes = self._writes\n        probabilities = self._cdf\n        random_uniforms")]},
+    # forms read by R6 / R3 since round 2: record results read by field, bound-method aliases of sample_batch, a batch sampled by the caller, the two views of one grid of segment edges
+    {"id": "c08-td7-record-raw-errors", "file": "rl_blox/algorithm/td7.py", "rule": "R6", "edits": _TD7_RECORD + [("        lap_priority(max_abs_td_error, lap_min_priority, lap_alpha)\n", "        out.abs_error\n")]},
+    {"id": "c08-td7-record-resample", "file": "rl_blox/algorithm/td7.py", "rule": "R6", "edits": _TD7_RECORD + [("    replay_buffer.update_priority(\n        lap_priority(max_abs_td_error, lap_min_priority, lap_alpha)\n", "    metrics[\"batch reward\"] = replay_buffer.sample_batch(batch_size, rng).reward.mean()\n    replay_buffer.update_priority(\n        lap_priority(out.abs_error, lap_min_priority, lap_alpha)\n")]},
+    {"id": "c08-per-bound-sampler-resample", "file": "rl_blox/algorithm/per.py", "rule": "R6", "edits": [_PER_BOUND, ("                priority = per_priority(\n", "                probe, _ = draw(1.0)\n                priority = per_priority(\n")]},
+    {"id": "c08-td7-caller-resample", "file": "rl_blox/algorithm/td7.py", "rule": "R6", "edits": [("                metrics, epochs = _train_step(\n", "                minibatch = replay_buffer.sample_batch(batch_size, rng)\n                if logger is not None and epoch % 100 == 0:\n                    logger.record_stat(\"batch reward\", float(replay_buffer.sample_batch(batch_size, rng).reward.mean()))\n                metrics, epochs = _train_step(\n")] + _TD7_CALLER[1:]},
+    {"id": "c08-stratified-edges-lower-twice", "file": _F, "rule": "R3", "find": _STRAT_DRAW, "replace": "        edges = segment * np.arange(batch_size + 1)\n        random_points = rng.uniform(edges[:-1], edges[:-1], batch_size)\n"},
+    {"id": "c08-stratified-edges-overlap", "file": _F, "rule": "R3", "find": _STRAT_DRAW, "replace": "        edges = segment * np.arange(batch_size + 1)\n        random_points = rng.uniform(edges[:-1], edges[1:] + segment, batch_size)\n"},
 ]
 BENIGN = [
     {"id": "c08-b-max-early-return", "file": _F, "find": "        self.max_priority = max(np.max(priority), self.max_priority)", "replace": "        batch_max = np.max(priority)\n        if self.max_priority > batch_max:\n            return\n        self.max_priority = batch_max"},
@@ -1991,4 +2212,11 @@ BENIGN = [
     {"id": "c08-b-ratio-len-self", "file": _F, "edits": [("        is_weight = (self.current_len * priority / sum_probability) ** (-beta)", "        is_weight = (len(self) * priority / sum_probability) ** (-beta)"), ("        normalized_weights = is_weight / np.max(is_weight)", "        normalized_weights = is_weight / is_weight.max()")]},
     {"id": "c08-b-reset-filled-slice-guard", "file": _F, "find": "        if current_len > 0:\n            self.max_priority = np.max(self.priority[:current_len])", "replace": "        stored = self.priority[:current_len]\n        if len(stored) > 0:\n            self.max_priority = stored.max()"},
     {"id": "c08-b-total-kept-for-diagnostics", "file": _F, "nth": 0, "find": "        probabilities = np.cumsum(priority)\n", "replace": "        probabilities = np.cumsum(priority)\n        self.last_total_priority = probabilities[-1]\n"},
+    {"id": "c08-b-td7-record-result", "file": "rl_blox/algorithm/td7.py", "edits": _TD7_RECORD + [("        lap_priority(max_abs_td_error, lap_min_priority, lap_alpha)\n", "        lap_priority(out.abs_error, lap_min_priority, lap_alpha)\n")]},
+    {"id": "c08-b-per-bound-sampler", "file": "rl_blox/algorithm/per.py", "edits": [_PER_BOUND]},
+    {"id": "c08-b-per-sampler-alias", "file": "rl_blox/algorithm/per.py", "edits": [("    epsilon = linear_schedule(total_timesteps)\n", "    sampler = replay_buffer.sample_batch\n    epsilon = linear_schedule(total_timesteps)\n"), ("replay_buffer.sample_batch(batch_size, rng, beta[step])", "sampler(batch_size, rng, beta=beta[step])")]},
+    {"id": "c08-b-td7-batch-from-caller", "file": "rl_blox/algorithm/td7.py", "edits": _TD7_CALLER},
+    {"id": "c08-b-td7-batch-sampled-in-call", "file": "rl_blox/algorithm/td7.py", "edits": [("                    replay_buffer,\n                    epoch,\n", "                    replay_buffer,\n                    replay_buffer.sample_batch(batch_size, rng),\n                    epoch,\n")] + _TD7_CALLER[2:]},
+    {"id": "c08-b-stratified-edges", "file": _F, "find": _STRAT_DRAW, "replace": "        edges = segment * np.arange(batch_size + 1)\n        random_points = rng.uniform(edges[:-1], edges[1:], batch_size)\n"},
+    {"id": "c08-b-stratified-grid-views", "file": _F, "find": _STRAT_DRAW, "replace": "        grid = np.arange(1 + batch_size)\n        random_points = rng.uniform(low=grid[:-1] * segment, high=segment * grid[1:], size=batch_size)\n"},
 ]
